@@ -7,6 +7,7 @@
    The guard [w_failed s = false] excludes only the states after the controller's own terminal failure. *)
 From Coq Require Import ZArith List Bool Permutation.
 From GV Require Import C42.Model C44.Model C44.Lemmas C44.Proofs.
+From GV Require C44.Examples.
 Import ListNotations.
 Open Scope Z_scope.
 
